@@ -15,7 +15,7 @@ import time
 VERIF = os.path.dirname(os.path.dirname(os.path.abspath(__file__)))
 REPO = os.environ.get('VERIF_REPO', '/repo')
 SRC = os.path.join(REPO, 'rust/ommx/src')
-OUT = os.path.join(VERIF, 'out')
+OUT = os.environ.get('VERIF_OUT') or os.path.join(VERIF, 'out')   # VERIF_OUT: scratch output directory (tools/seed_deductive.sh)
 
 
 class LostAnchor(Exception):
@@ -533,6 +533,106 @@ def annotate_closures(body, closures, unit):
 
 
 # --------------------------------------------------------------------------
+# R31: iterator pipelines instantiated at Vec
+# --------------------------------------------------------------------------
+PIPE_ADAPTERS = ('iter', 'into_iter', 'map', 'chain', 'filter')
+
+
+def _top_calls(e):
+    """split `base.m1(a1).m2(a2)...` at top level: returns (base, [(name, args)])"""
+    d = 0
+    i = 0
+    cuts = []
+    while i < len(e):
+        ch = e[i]
+        if ch in '([{':
+            d += 1
+        elif ch in ')]}':
+            d -= 1
+        elif ch == '.' and d == 0 and not e[i:i + 2] == '..' and not (i > 0 and e[i - 1] == '.'):
+            m = re.match(r'\.\s*(\w+)\s*\(', e[i:])
+            if m:
+                op = i + m.end() - 1
+                cl = match_close(e, op, '(', ')')
+                cuts.append((i, m.group(1), e[op + 1:cl], cl + 1))
+                i = cl + 1
+                continue
+        i += 1
+    if not cuts:
+        return e.strip(), []
+    # the calls must be contiguous up to the end of the expression
+    k = len(cuts) - 1
+    if e[cuts[k][3]:].strip():
+        return e.strip(), []
+    while k > 0 and e[cuts[k - 1][3]:cuts[k][0]].strip() == '':
+        k -= 1
+    return e[:cuts[k][0]].strip(), [(n, a) for (_, n, a, _) in cuts[k:]]
+
+
+def pipeline(e, hit=None, ctr=None):
+    """R31: an iterator pipeline (`.iter()`, `(a..b).map(C)`, `.map(C)`, `.chain(P)`, `.filter(C)`, `std::iter::once(x)`, `std::iter::empty()`, `Box::new(P)`) is instantiated at Vec:
+    each adapter becomes one `let __pK = helper(..);` with the adapter's std contract (prelude/std_helpers.rs), in evaluation order; the closures are the source text.
+    Anything else is outside the rule (LostAnchor).  Returns a block expression."""
+    ctr = ctr if ctr is not None else [0]
+    stmts, res = _pipe(e, hit, ctr)
+    if not stmts:
+        return res
+    return '{ ' + ' '.join(stmts) + ' ' + res + ' }'
+
+
+def _pipe(e, hit, ctr):
+    def h():
+        if hit:
+            hit('R31')
+
+    def bind(expr, stmts):
+        ctr[0] += 1
+        nm = '__p%d' % ctr[0]
+        stmts.append('let %s = %s;' % (nm, expr))
+        h()
+        return nm
+    e = e.strip().rstrip(',').strip()
+    m = re.match(r'^Box::new\s*\(', e)
+    if m and match_close(e, m.end() - 1, '(', ')') == len(e) - 1:
+        return _pipe(e[m.end():-1], hit, ctr)
+    stmts = []
+    m = re.match(r'^(?:std::iter::|iter::)?once\s*\(', e)
+    if m and match_close(e, m.end() - 1, '(', ')') == len(e) - 1:
+        return stmts, bind('vec_once(%s)' % e[m.end():-1].strip(), stmts)
+    if re.match(r'^(?:std::iter::|iter::)?empty\s*\(\s*\)$', e):
+        return stmts, bind('vec_empty()', stmts)
+    base, calls = _top_calls(e)
+    if not calls:
+        return stmts, base          # an already collected value (a local bound to a pipeline, or a call of a unit whose iterator is instantiated at Vec)
+    cur = base
+    first = True
+    for name, args in calls:
+        if name not in PIPE_ADAPTERS:
+            raise LostAnchor('iterator adapter .%s() is outside rule R31' % name)
+        clo = re.sub(r'^\s*move\s+', '', args.strip())
+        if name == 'iter':
+            if args.strip():
+                raise LostAnchor('iter() with arguments')
+            cur = bind('vec_refs(&%s)' % cur, stmts)
+        elif name == 'into_iter':
+            cur = bind('%s.into_iter()' % cur, stmts)       # the typed unit (R22: returns Vec)
+        elif name == 'map':
+            rm = re.match(r'^\(\s*(.+?)\s*\.\.\s*(.+?)\s*\)$', cur) if first else None
+            if rm:
+                cur = bind('range_map_collect(%s, %s, %s)' % (rm.group(1), rm.group(2), clo), stmts)
+            else:
+                cur = bind('vec_map_collect(%s, %s)' % (cur, clo), stmts)
+        elif name == 'chain':
+            st2, r2 = _pipe(args, hit, ctr)
+            stmts.extend(st2)
+            cur = bind('vec_chain(%s, %s)' % (cur, r2), stmts)
+        elif name == 'filter':
+            cur = bind('vec_filter(%s, %s)' % (cur, clo), stmts)
+        first = False
+    return stmts, cur
+
+
+# --------------------------------------------------------------------------
 # units
 # --------------------------------------------------------------------------
 
@@ -540,7 +640,8 @@ class Unit:
     """One function of /repo under contract."""
 
     def __init__(self, name, file, fn, header, impl=None, sig=None, wrap=('', ''), loops=(), subs=(), proofs=(),
-                 pre='', anyhow=True, fn_rx=None, serves=(), note='', rules=True, post_subs=(), text=None, subs_all=(), closures=None, rsubs=(), mut_self=False, strlit=False, renames=()):
+                 pre='', anyhow=True, fn_rx=None, serves=(), note='', rules=True, post_subs=(), text=None, subs_all=(), closures=None, rsubs=(), mut_self=False, strlit=False, renames=(), pipes=None):
+        self.pipes = pipes        # R31: None = off; else list of regexes (one group each) whose group is an iterator pipeline, in addition to every `Box::new(<pipeline>)`
         self.renames = list(renames)   # R30: (regex with one group, canonical name): alpha-rename a local to the name the sidecar uses
         self.name = name          # display name, e.g. "Bound::pow"
         self.file = file
@@ -601,6 +702,20 @@ class Unit:
                 raise LostAnchor('%s no longer takes `mut self`' % self.name)
             body = re.sub(r'\bself\b', 'this', body)
             body = '{ let mut this = self;' + body[1:]
+        if self.pipes is not None:
+            # R31: iterator pipelines instantiated at Vec
+            pctr = [0]
+            for rx in self.pipes:
+                ms = list(re.finditer(rx, body))
+                if len(ms) != 1:
+                    raise LostAnchor('pipeline anchor %r matched %d times in %s' % (rx, len(ms), self.name))
+                body = body[:ms[0].start(1)] + pipeline(ms[0].group(1), rules.hit, pctr) + body[ms[0].end(1):]
+            while True:
+                m = re.search(r'Box::new\s*\(', body)
+                if not m:
+                    break
+                cl = match_close(body, m.end() - 1, '(', ')')
+                body = body[:m.start()] + pipeline(body[m.end():cl], rules.hit, pctr) + body[cl + 1:]
         for a, b in self.subs:
             if body.count(a) != 1:
                 raise LostAnchor('substitution source %r occurs %d times in %s' % (a, body.count(a), self.name))
